@@ -10,6 +10,7 @@ inside the input, same outcome twice) — that part is search.  For the statemen
 sublanguage of Model/Syntax.lean the token-level parser is a total function by construction, and
 what it accepts it accounts for completely.
 -/
+import MechVerif.Gen.ParseWrap
 import MechVerif.Model.Cursor
 import MechVerif.Lemmas.Syntax
 namespace MechVerif.Cursor
@@ -251,3 +252,26 @@ theorem C09_outcome_independent_of_fuel (g : Gram) (n m : Nat) (ts : List Tok) (
   exact Option.some.inj this
 
 end MechVerif.Syntax
+
+/-! ### the decision at the end of `parser::parse` as it is written
+
+`Gen/ParseWrap.lean` is regenerated from src/syntax/src/parser.rs on every run (`tools/extract_parsewrap.py`);
+`C09_parse_wrapper_as_written` (`decide`) says the extracted record is `expected`. -/
+namespace MechVerif.ParseWrapIR
+open MechVerif.Cursor
+
+/-- **The wrapper as written decides as the model does**: a tree is returned iff the program parser produced one, nothing was
+    logged during recovery and nothing remains unparsed; otherwise the report has one entry per logged error, one for the
+    failure itself and one for leftover input. -/
+theorem C09_wrapper_as_written_is_decide (failed : Bool) (recovered remaining : Nat) :
+    outcomeAsWritten Gen.ParseWrap.wrap failed recovered remaining =
+      Cursor.decide (!failed) (recovered + (if failed then 1 else 0)) remaining := by
+  rw [Gen.ParseWrap.C09_parse_wrapper_as_written]
+  cases failed <;> by_cases h : remaining = 0 <;> simp [outcomeAsWritten, expected, Cursor.decide, h]
+
+/-! non-vacuity: a wrapper that returned the tree although errors were logged, or forgot the leftover input, is refused -/
+example : ({ expected with okIffLogEmpty := false } : WrapIR) ≠ expected := by decide
+example : outcomeAsWritten { expected with leftoverAdds := false } false 0 3 = .tree := by decide
+example : outcomeAsWritten expected false 0 3 = .report 1 := by decide
+
+end MechVerif.ParseWrapIR
